@@ -195,6 +195,7 @@ pub fn accept_encoding(data: &[u8]) -> Vec<(&'static str, Fail)> {
         write_mode: m % 3,
         more_lines: vec![],
         prior: if m % 7 == 0 { 1 + (m / 7) % 3 } else { 0 },
+        version: (m % 11) % 5,
     };
     collect("C17", c16::check_c17(&c, &mut acc), &mut out);
     out
